@@ -7,6 +7,7 @@ import (
 	"go/token"
 	"go/types"
 	"sort"
+	"strconv"
 	"strings"
 
 	"golang.org/x/tools/go/packages"
@@ -283,6 +284,39 @@ func init() {
 
 func valStr(v constant.Value) string { return v.ExactString() }
 
+// uniqueLocalName: no other user type of the program carries the local name of named
+// (the TypeScript output names types by their local name only).
+func uniqueLocalName(ref *refModel, named *types.Named) bool {
+	n := 0
+	for _, p := range ref.pkgs {
+		if obj := p.Types.Scope().Lookup(named.Obj().Name()); obj != nil {
+			if _, isType := obj.(*types.TypeName); isType {
+				n++
+			}
+		}
+	}
+	return n == 1
+}
+
+// tsEnumLiteral finds `member : literal,` inside `export const <enum> = { ... } as const`.
+func tsEnumLiteral(text, enum, member string) (string, bool) {
+	i := strings.Index(text, "export const "+enum+" = {")
+	if i < 0 {
+		return "", false
+	}
+	block := text[i:]
+	if j := strings.Index(block, "} as const"); j >= 0 {
+		block = block[:j]
+	}
+	for _, line := range strings.Split(block, "\n") {
+		line = strings.TrimSpace(line)
+		if rest, ok := strings.CutPrefix(line, member+" : "); ok {
+			return strings.TrimSuffix(strings.TrimSpace(rest), ","), true
+		}
+	}
+	return "", false
+}
+
 func oracleC10(ctx *progCtx) {
 	w, id := ctx.W, ctx.L.Ref.ID
 	if ctx.An == nil {
@@ -353,6 +387,24 @@ func oracleC10(ctx *progCtx) {
 			e, ok := expBy[mb.Const.Name()]
 			if !ok {
 				continue
+			}
+			// the exact value as a target prints it: the TypeScript enum object (integer and string enums)
+			if ts, ok := ctx.Gen["ts"]; ok && ts.Outcome.OK && uniqueLocalName(ref, named) {
+				if lit, found := tsEnumLiteral(ts.Text, named.Obj().Name(), mb.Const.Name()); found {
+					w.Count("enum-values-compared-in-typescript", 1)
+					want := e.Const.Val()
+					okVal := true
+					switch want.Kind() {
+					case constant.Int:
+						okVal = lit == want.ExactString()
+					case constant.String:
+						u, err := strconv.Unquote(lit)
+						okVal = err == nil && u == constant.StringVal(want)
+					}
+					if !okVal {
+						w.Violation(id, "enum-member-value-on-target:typescript", fmt.Sprintf("enum %s member %s: TypeScript prints %s, the constant is %s", named, mb.Const.Name(), lit, want.ExactString()), nil)
+					}
+				}
 			}
 			if valStr(mb.Const.Val()) != valStr(e.Const.Val()) || mb.Const != e.Const {
 				w.Violation(id, "enum-member-value", fmt.Sprintf("enum %s member %s: value %s, want %s", named, mb.Const.Name(), valStr(mb.Const.Val()), valStr(e.Const.Val())), nil)
